@@ -692,6 +692,18 @@ def rule_h_per_thread_reduction(ctx, fns):
     for (cls, X), rr in sorted(role.items()):
         if "reduce" not in rr:
             continue
+        # ... and that function makes sure there is a slot for every thread a later region can have: the container was sized by an
+        # earlier call (set_up), the number of threads may have been raised since
+        if "reset" in rr:
+            rf = rr["reset"].fn if hasattr(rr["reset"], "fn") else None
+            host = next((g for g in fns if g.body is not None and any(x is rr["reset"] for x in g.walk())), None)
+            sized = False
+            if host is not None:
+                for m in host.walk():
+                    if m.k == "CXXMemberCallExpr" and (m.callee or "").split("::")[-1] == "resize" and m.c and key(m.c[0].strip()) == X and any("omp_get_max_threads()" in key(a) for a in m.call_args()):
+                        sized = True
+            ctx.ob("C18.h-per-thread-reduction-complete", cls, "slots-for-all-threads:%s" % X.replace("this.", ""), sized, rr["reset"].where(), "the call that starts a new accumulation (re)sizes %s for omp_get_max_threads()" % X.replace("this.", "") if sized else "%s is sized by an earlier call only; a thread number beyond that size (number of threads raised in between) indexes it out of range" % X.replace("this.", ""))
+            n += 1
         ok = "reset" in rr
         ctx.ob("C18.h-per-thread-reduction-complete", cls, "reset-of:%s" % X.replace("this.", ""), ok, (rr.get("reset") or rr["reduce"]).where(), "the slots that %s sums are zero-filled, all of them, by a loop outside any parallel region" % rr["reduce"].where() if ok else "the slots summed at %s are never zero-filled by a loop over all of them outside a parallel region: a new accumulation starts from the previous contents" % rr["reduce"].where())
         n += 1
